@@ -776,6 +776,27 @@ func Run(r *fw.Run) {
 		b.WriteString("\tb.com/y v1.0.0\n)\n")
 		sds = append(sds, b.String())
 	}
+	// paths of which one is a prefix of another, continued by bytes on both sides of 'v' and of '/' (token order
+	// is not the order of the joined line): in replace and exclude blocks that every bulk call sorts, scrambled
+	for _, gov := range []string{"1.20", "1.21"} {
+		rel := []string{"a.com/x", "a.com/x/v2", "a.com/x-y", "a.com/x.z", "a.com/xa", "a.com/x0", "a.com/x/w", "a.com/xv", "a.com/xw", "a.com/x_y"}
+		var b strings.Builder
+		fmt.Fprintf(&b, "module example.com/m\n\ngo %s\n\nrequire a.com/x v1.0.0\n\nreplace (\n", gov)
+		for i := range rel {
+			fmt.Fprintf(&b, "\t%s => ../r%d\n", rel[(i*7+3)%len(rel)], i)
+		}
+		b.WriteString(")\n\nexclude (\n")
+		for i := range rel {
+			p := rel[(i*3+1)%len(rel)]
+			v := "v1.0.0"
+			if strings.HasSuffix(p, "/v2") {
+				v = "v2.0.0"
+			}
+			fmt.Fprintf(&b, "\t%s %s\n", p, v)
+		}
+		b.WriteString(")\n")
+		sds = append(sds, b.String())
+	}
 	reqs := requests()
 	r.Bounds["require_lines_max"] = kmax
 	r.Bounds["seeds"] = len(sds)
